@@ -115,12 +115,12 @@ func vC22Goroutines() []vC22G {
 	return out
 }
 
+// vC22Relevant: every goroutine that did not exist when the case started (those are in the ignore set) and is not
+// the test goroutine itself counts. Filtering by "runs cluster code" is NOT sound: a goroutine started through
+// errgroup.Go (unprotectedSendSync, handleNodeAction) shows only errgroup frames until it is first scheduled, so
+// it would be invisible while runnable and the wait could end with the handler still inside nodeJoin.
 func vC22Relevant(g vC22G) bool {
-	if strings.Contains(g.text, "vC22Quiesce") {
-		return false // the test goroutine itself
-	}
-	return strings.Contains(g.text, "pilosa.(*cluster).") || strings.Contains(g.text, "pilosa.(*resizeJob).") ||
-		strings.Contains(g.text, "pilosa.vC22") || strings.Contains(g.text, "pilosa.(*vC22")
+	return !strings.Contains(g.text, "vC22Quiesce")
 }
 
 func vC22Blocked(state string) bool {
@@ -132,8 +132,8 @@ func vC22Blocked(state string) bool {
 	return false
 }
 
-// vC22Quiesce waits until every goroutine running cluster code (other than those in ignore) is blocked in two
-// consecutive snapshots with identical (id, state) sets. Returns the relevant goroutines.
+// vC22Quiesce waits until every goroutine created since the case started (i.e. not in ignore) is blocked in two
+// consecutive snapshots with identical (id, state) sets. Returns those goroutines.
 func vC22Quiesce(ignore map[string]bool) []vC22G {
 	deadline := time.Now().Add(60 * time.Second)
 	prev := ""
@@ -225,9 +225,7 @@ func vC22Node(id string) *Node {
 func vC22NewEnv(t vGXT, members []string, replicas int) *vC22Env {
 	e := &vC22Env{b: &vC22Bcast{}, log: &vC22Logger{gate: make(chan struct{})}, ignore: map[string]bool{}}
 	for _, g := range vC22Goroutines() {
-		if vC22Relevant(g) {
-			e.ignore[g.id] = true // left over from earlier (failed or abandoned) cases
-		}
+		e.ignore[g.id] = true // everything that exists before the case: test runner, leftovers of abandoned cases
 	}
 	dir, err := ioutil.TempDir("", "verif-c22-")
 	if err != nil {
